@@ -357,11 +357,13 @@ MANIFEST_TEXT = {
                    "content with mode = requested & ~umask; on success exactly the bytes written are published and no temporary file remains; "
                    "on failure of the writer or of the commit the error is returned, the destination is untouched and no temporary file "
                    "remains; the File API in any order of Write/Commit/Close never exposes anything but the old file or a renamed complete "
-                   "temporary file, Close without Commit discards, calls after Commit are inert -- Coq theorems over a system-call-level "
+                   "temporary file, Close without Commit discards, calls after Commit are inert; under a file-size limit (short write, sticky bufio "
+                   "error) with a writer that ignores its Write errors, WriteFile fails exactly when the data does not fit and then publishes nothing and leaves "
+                   "no temporary file -- Coq theorems over a system-call-level "
                    "model (bufio's write sizes included). The model's call list is compared with strace's log of the real run, together "
-                   "with returned values and the resulting directory; children are SIGKILLed at injected system calls.",
+                   "with returned values and the resulting directory; children are SIGKILLed at injected system calls; write faults are produced with RLIMIT_FSIZE.",
         level_note="Partial: atomicity of rename(2) and durability across power loss are OS behaviour outside the model; crash points are "
-                   "system-call boundaries; write errors from the OS (disk full) are not injected.",
+                   "system-call boundaries; of the OS write errors only the file-size limit is injected.",
         technique="Coq proof (prefix-closed reasoning over system-call lists; byte conservation of the buffered writer) on a hand-written Gallina model + strace-based differential correspondence check"),
     "C13": dict(
         level_text="Proof: the line rendered for a record is the level tag, timestamp and message followed by every leaf attribute of the "
@@ -380,11 +382,14 @@ MANIFEST_TEXT = {
                    "backlog, task channel, running workers and finished list is conserved; received = processed + in flight; the dispatcher "
                    "never indexes an empty backlog; once Shutdown has returned every submitted task has finished exactly once and nothing is "
                    "left anywhere; never more than Workers tasks run; tasks start in the order they entered the input channel (submission "
-                   "order for one worker) -- Coq theorems. The model, run to quiescence after each environment move, is compared with the "
+                   "order for one worker); LIVENESS: a reachable state in which no goroutine can move is the idle queue with every accepted task finished, or the state "
+                   "in which Shutdown has returned (no deadlock: the blocking hand-off always follows a completion receive, so the three buffers are never all "
+                   "full); every goroutine move decreases a measure, hence Shutdown returns under every schedule, fair or not, once the tasks end "
+                   "-- Coq theorems. The model, run to quiescence after each environment move, is compared with the "
                    "real queue under gated tasks (which Submit calls returned, which tasks started/finished/were reported, whether "
                    "Shutdown returned); free-running runs are checked by an oracle over event stamps under the race detector.",
-        level_note="Partial: the Go scheduler and channel runtime are modelled, not verified; progress (Shutdown eventually returns under a "
-                   "fair scheduler) is sampled by deadlines, not proved; the recovery handler is modelled as a per-task report.",
+        level_note="Partial: the Go scheduler and channel runtime are modelled, not verified; that a running task ends is the caller's "
+                   "business (a hypothesis of the liveness theorems); the recovery handler is modelled as a per-task report.",
         technique="Coq proof (invariants of an interleaving transition system by induction over schedules) on a hand-written Gallina model + quiescence-based differential correspondence check"),
     "C16": dict(
         level_text="Proof: in every reachable state of the limiter tree (any history of Use/New/Close/tick without SetCap) 0 <= used <= max(0, "
@@ -454,10 +459,12 @@ MANIFEST_TEXT = {
                    "As/CheckedAs(From v) = v for every integer kind -- Coq theorems for every multiplier 10..10^16 and all operands whose "
                    "exact results are representable, over a model with explicit int64 wrap. f128: the same laws (Add/Sub, Mul, Div incl. "
                    "divide-by-zero, Trunc, Mod, Ceil, Round, Min/Max/Inc/Dec) are Coq theorems over the Int128 model, resting on the C01 "
-                   "theorems for Int128 Add/Sub/Mul/Neg/comparisons and division. f128 From/As and all float conversions are decided per run: "
+                   "theorems for Int128 Add/Sub/Mul/Neg/comparisons and division; f128 integer From is exact for every machine integer, As is the quotient toward zero narrowed to the "
+                   "requested kind for every value, As(From v) = v; Fraction.Normalize/Value (both types) give numerator/denominator truncated toward zero "
+                   "(0 for a zero denominator). Float conversions are decided per run: "
                    "correspondence for every method in all 16 configurations and an exact big-integer/rational oracle on the implementation's answers.",
         level_note="Trusted: Coq kernel, extraction, drivers, harness; model hand-written, tied by correspondence on sampled operands; "
-                   "f128 integer From/As not proved (tied by K and S); float conversions are only tolerance-checked.",
+                   "float conversions are only tolerance-checked.",
         technique="Coq proof (lia/nia with truncated division) on a hand-written Gallina model + differential correspondence check"),
     "C07": dict(
         level_text="Proof: for every history of Insert/Remove/Reorganize/Clear, every threshold and rational coordinates (all ints and finite "
@@ -465,7 +472,9 @@ MANIFEST_TEXT = {
                    "rectangle of every tree node above it' holds, and under it each of the sixteen queries returns exactly (as a multiset) what "
                    "a linear scan with the geom predicate returns, boolean queries being true iff that scan is non-empty -- Coq theorems built "
                    "on the C18 rectangle theorems, independent of tree shape and halving. The model is compared with the real QuadTree on int "
-                   "and exact float64 histories after every operation, and a separately coded linear scan is applied to the implementation's answers.",
+                   "and exact float64 histories after every operation, and a separately coded linear scan is applied to the implementation's answers; "
+                   "histories over non-dyadic floats (tenths), where x+w rounds, are judged by a linear scan with the library's own predicates inside the "
+                   "harness (this stream exposed a Remove defect, repaired by fe366f4).",
         level_note="Trusted: Coq kernel, extraction, drivers, harness; model hand-written, tied by correspondence on sampled histories "
                    "(query results only; shape unobservable); float rounding outside the dyadic domain not covered.",
         technique="Coq proof (invariant + refinement by induction over histories, pruning lemmas from C18) on a hand-written Gallina model + differential correspondence check"),
